@@ -39,3 +39,26 @@ func (t *SerializableTime) UnmarshalJSON(data []byte) error {
 
 	return nil
 }
+
+// MarshalYAML implements the Marshaler interface of the YAML packages.
+func (t SerializableTime) MarshalYAML() (interface{}, error) {
+	return t.Format(time.TimeOnly), nil
+}
+
+// UnmarshalYAML implements the Unmarshaler interface of the YAML packages: without it the value is decoded
+// into the embedded time.Time, which only takes full timestamps.
+func (t *SerializableTime) UnmarshalYAML(unmarshal func(interface{}) error) error {
+	var value string
+	if err := unmarshal(&value); err != nil {
+		return fmt.Errorf("unable to parse time from YAML: %w", err)
+	}
+
+	parsedTime, err := time.Parse(time.TimeOnly, value)
+	if err != nil {
+		return fmt.Errorf("unable to parse time from YAML: %w", err)
+	}
+
+	t.Time = parsedTime
+
+	return nil
+}
